@@ -303,6 +303,7 @@ Apply(st, e) ==
 (* predicate that explains a failure ("-" if none does).                   *)
 (***************************************************************************)
 G(name, tags, ok, kf) == [name |-> name, tags |-> tags, ok |-> ok, kf |-> kf]
+AllProps == {"C01", "C02", "C03", "C04", "C05", "C06", "C07", "C08", "C09", "C10", "C11", "C12", "C13", "C14", "C15", "C16", "C17", "C18", "C19", "C20"}
 ErrSet(e) == Range(e.err)
 
 \* ---- known-deviation predicates (see known_findings.json) -------------------------------
@@ -409,9 +410,11 @@ Disposables(st, S) == {i \in OwnedBy(st, S) : st.inst[i].disp}
 MustClose(st, S) == {i \in Disposables(st, S) : st.inst[i].inv # 0}
 AllClosed(st, ids) == \A i \in ids : st.inst[i].closed >= 1
 
+OtherVerdicts == {"notfound", "circular", "lifetimeConflict", "alreadyRegistered", "scopeDisposed", "providerDisposed"}
 FailClassOK(c, err) ==
-    IF c.failed = "err" THEN {"ctorError", "cause"} \subseteq err
-    ELSE IF c.failed = "panic" THEN {"ctorPanic", "panicval"} \subseteq err
+    \* the classes are DISTINGUISHABLE: a constructor failure is none of the container's own verdicts
+    IF c.failed = "err" THEN {"ctorError", "cause"} \subseteq err /\ err \cap OtherVerdicts = {}
+    ELSE IF c.failed = "panic" THEN {"ctorPanic", "panicval"} \subseteq err /\ err \cap OtherVerdicts = {}
     ELSE IF c.failed = "unil" THEN "validation" \in err       \* an untyped nil result is refused as invalid
     ELSE TRUE
 
@@ -598,15 +601,20 @@ AbuseTable ==
      \* constructors whose last result is a concrete type implementing error (not the error interface)
      ctor_pointer_error_reported |-> AE({"ctorError"}), ctor_pointer_error_retry |-> AOK,
      ctor_pointer_error_build |-> AE({"ctorError", "build"}),
-     ctor_struct_error_add |-> AOK, ctor_struct_error_build |-> AOK, ctor_struct_error_resolve |-> AOK]
+     ctor_struct_error_add |-> AOK, ctor_struct_error_build |-> AOK, ctor_struct_error_resolve |-> AOK,
+     \* disposable services that are values (not comparable / all equal): each constructed value closed exactly once
+     value_disposables_closed |-> AOK]
+\* calls of the battery that also speak for other properties
+AbuseTags == [value_disposables_closed |-> {"C10", "C12"}]
+TagsOfAbuse(call) == {"C15"} \cup (IF call \in DOMAIN AbuseTags THEN AbuseTags[call] ELSE {})
 
 GuardsAbuse(e) ==
     IF e.call \notin DOMAIN AbuseTable THEN {G("known_abuse_call", {"C15"}, FALSE, NONE)}
     ELSE LET x == AbuseTable[e.call]
              err == Range(e.err)
-         IN {G("panics_only_by_contract", {"C15"}, e.panic = x.panics, NONE),
+         IN {G("panics_only_by_contract", TagsOfAbuse(e.call), e.panic = x.panics, NONE),
              G("failure_is_classifiable", {"C15"}, (~x.ok /\ ~x.panics) => (err # {} /\ x.must \subseteq err), NONE),
-             G("valid_call_succeeds", {"C15"}, x.ok => err = {}, NONE),
+             G("valid_call_succeeds", TagsOfAbuse(e.call), x.ok => err = {}, NONE),
              G("closed_means_closed", {"C13"}, (x.must \cap {"scopeDisposed", "providerDisposed"} # {}) => x.must \subseteq err, NONE)}
 
 \* ---- quiescent observation (goroutines, reachability after GC, context state) ---------------
@@ -629,7 +637,9 @@ Guards(st, e) ==
     ELSE IF st.taint THEN {}
     ELSE IF e.ev = "ctor" THEN GuardsCtor(st, e)
     ELSE IF e.ev = "close" THEN GuardsClose(st, e)
-    ELSE IF e.ev = "fatal" THEN {G("no_fatal_crash", {"C05", "C09", "C15"}, FALSE, NONE)}
-    ELSE IF e.ev = "hang" THEN {G("call_terminates", {"C05", "C09", "C13", "C15"}, FALSE, NONE)}
+    \* the process crashed (Go runtime fatal error / panic outside any call) or a call never returned while a scenario
+    \* of the property under check was running: whatever that property promises about the call did not happen
+    ELSE IF e.ev = "fatal" THEN {G("no_fatal_crash", AllProps, FALSE, NONE)}
+    ELSE IF e.ev = "hang" THEN {G("call_terminates", AllProps, FALSE, NONE)}
     ELSE {}
 =============================================================================
